@@ -161,6 +161,18 @@ def c04_scenarios(tier):
             sn = sched.Scenario("%s/build/eager:%s" % (sh, t), ts, all_x(ts, ["build"]), ["-c", "build"], ["build"],
                                 eager=[("build", t)])
             out.append(("c04", sn.describe(), {"max_dev": 0 if tier == "quick" else 1, "sequences": None}))
+    # one target does not define the first command (it is reported `undefined`, nothing is started for it):
+    # the others are still ordered among themselves
+    for sh in shapes:
+        ts = shape_targets(sh)
+        paths = [t["path"] for t in ts]
+        if len(paths) < 2:
+            continue
+        for t_ in (paths if tier != "quick" else paths[:2] + paths[-1:]):
+            modes = all_x(ts, ["build", "test"])
+            modes[(t_, "build")] = None
+            sn = sched.Scenario("%s/build+test/all/undefined-build:%s" % (sh, t_), ts, modes, ["-c", "build", "test"], ["build", "test"])
+            out.append(("c04", sn.describe(), {"max_dev": 1 if tier == "quick" else 2, "sequences": None}))
     # executables that close both output streams right after starting and keep running (exec >log 2>&1)
     for sh in shapes:
         ts = shape_targets(sh)
@@ -676,6 +688,46 @@ def c06d_task(desc):
         s.cleanup()
 
 
+def c06e_task(desc):
+    """A command of an earlier group changes the execute permission of a later target's command file
+    during the same run. What counts is the file as it is when its turn comes: without the bit the target
+    is `not_executable`, the run fails with exit 1 and nothing later starts; with the bit it runs."""
+    direction = desc["direction"]
+    ts = [{"path": "a"}, {"path": "b", "uses": ["a"]}, {"path": "c", "uses": ["b"]}]
+    s = sc.Scratch("c06e")
+    try:
+        r = sc.Repo(s, "r", ts, commands={"a": {"build": "x"}, "b": {"build": "x755" if direction == "revoke" else "x644"}, "c": {"build": "x"}}, init_git=False)
+        bfile = r.path("b/monorail/cmd/build.sh")
+        r.set_script("a", "build", ["chmod %s %s" % ("644" if direction == "revoke" else "755", bfile.encode().hex()), "exit 0"])
+        res = r.mr("run", "-c", "build", env=r.trace_env())
+        doc = res.json()
+        started = sorted({r.target_pair(t)[0] for t in r.traces()})
+        viol = []
+        if doc is None:
+            viol.append(("no-result-document", "an earlier command changed the execute bit of a later command file (%s): exit %s %s" % (direction, res.code, res.err[:200])))
+        else:
+            st = {t: v for cr in doc["results"] for g in cr["target_groups"] for t, v in g.items()}
+            if direction == "revoke":
+                if not doc.get("failed") or res.code != 1:
+                    viol.append(("failed-flag-wrong", "b lost its execute bit before its turn: failed=%s exit %s" % (doc.get("failed"), res.code)))
+                if (st.get("b") or {}).get("status") != "not_executable" or (st.get("c") or {}).get("status") != "skipped":
+                    viol.append(("status-wrong", "b lost its execute bit before its turn: statuses %s" % st))
+                if "b" in started or "c" in started:
+                    viol.append(("started-after-failure", "started %s" % started))
+            else:
+                if doc.get("failed") or res.code != 0 or any((v or {}).get("status") != "success" for v in st.values()):
+                    viol.append(("spurious-failure", "b gained its execute bit before its turn (a bootstrap step): failed=%s exit %s statuses %s" % (doc.get("failed"), res.code, st)))
+                if started != ["a", "b", "c"]:
+                    viol.append(("not-started", "started %s, expected a, b, c" % started))
+        return {"evaluations": 1, "nontrivial": 1, "states": 1, "transitions": 1, "unrealised": 0,
+                "violations": [{"sig": sig, "detail": d, "rank": 650, "case": {"c06e": desc}} for sig, d in viol],
+                "sample": {"execute_bit": direction}}
+    except common.EngineError as e:
+        return {"engine_error": str(e)}
+    finally:
+        s.cleanup()
+
+
 def c06c_task(desc):
     """C06 under delays of the compressor threads (guarded point compressor.loop): the scenario of
     p_c08.order_task judged for the failed flag, exit status, statuses and skipping."""
@@ -1046,6 +1098,8 @@ def _worker(task):
             return c06c_task(desc)
         if kind == "c06d":
             return c06d_task(desc)
+        if kind == "c06e":
+            return c06e_task(desc)
     except common.EngineError as e:
         return {"engine_error": "%s: %s" % (kind, e)}
     except Exception:
@@ -1059,7 +1113,7 @@ def run_tasks(tasks, workers=None):
 RULES = {
     "C04": "(thorough adds every labelled DAG on 2-4 nodes, single command, every release order) scenarios: 12 dependency shapes x selection modes (all targets / changed subset after a checkpoint / -t with --deps) x command lists (build; build test; sequence(build,test) then lint); every child blocks until released; stateless DFS over every release order (single-command scenarios: all orders; multi-command: all schedules with <= max_dev non-default choices) plus the eager deviation for every single child; monitor: at each arrival every dependency in the run and every executable of every earlier command has exited; evaluations = executions (complete runs); non-trivial = scenarios with more than one schedule",
     "C16": "(plus groups whose members all resolve the command to one shared executable, through definitions or a shared commands.path) (plus group sizes 2..13 with a `log tail` listener attached, three filter variants) (plus chains of wide groups, e.g. 30/30/10 and 40/40 under 1-2 commands, so that many tasks precede the group under test) group sizes x position of the group in the plan (only, first, middle, last) x 1-2 commands; no member is released before every member of the group has arrived (each member waits for all the others to start); oracle: every member arrives, then the run exits 0 with all success entries; non-trivial = scenarios where the full group rendezvoused for every command",
-    "C06": "part B (internal orderings): plans with a group of n in {1,2,3} (thorough 4) followed by a dependent target, all commands succeed, points group.pre_shutdown:<i> and compressor.gone:<x> active; the free run, every single constraint `compressor.gone:x before group.pre_shutdown:i` per group and pairs of constraints (hit b is held until hit a was seen); oracle exit 0, failed=false, all success, stored logs complete; plus the compressor-delay scenarios of C08 (guarded point compressor.loop: free / held until the group is joined / until the first shutdown request / one request behind) x no failure and each member failing last, judged for failed flag, exit status, statuses and skipping of the dependent group; plus runs without any failure in which one member leaves a helper process behind that holds its output streams open (0.6 - 2.5 s) while a sibling is still running. part A: plans = dependency shapes with two commands; fault assignments: every single fault (exit codes, death by signal, missing x bit, undefined with/without --fail-on-undefined) at every (command,target) position, pairs of faults within a command, and no fault; every exit code 1..255 at one position of the fork shape (default schedule); a subset again with an earlier failed / successful run's records on disk and with a listener attached; for each every release order of the groups (<=3 members); oracle: failed flag, exit status, skipped/not-started later groups and commands, status truthfulness; evaluations = executions",
+    "C06": "part B (internal orderings): plans with a group of n in {1,2,3} (thorough 4) followed by a dependent target, all commands succeed, points group.pre_shutdown:<i> and compressor.gone:<x> active; the free run, every single constraint `compressor.gone:x before group.pre_shutdown:i` per group and pairs of constraints (hit b is held until hit a was seen); oracle exit 0, failed=false, all success, stored logs complete; plus the compressor-delay scenarios of C08 (guarded point compressor.loop: free / held until the group is joined / until the first shutdown request / one request behind) x no failure and each member failing last, judged for failed flag, exit status, statuses and skipping of the dependent group; plus runs without any failure in which one member leaves a helper process behind that holds its output streams open (0.6 - 2.5 s) while a sibling is still running; plus an earlier command taking away / granting the execute bit of a later target's command file during the run. part A: plans = dependency shapes with two commands; fault assignments: every single fault (exit codes, death by signal, missing x bit, undefined with/without --fail-on-undefined) at every (command,target) position, pairs of faults within a command, and no fault; every exit code 1..255 at one position of the fork shape (default schedule); a subset again with an earlier failed / successful run's records on disk and with a listener attached; for each every release order of the groups (<=3 members); oracle: failed flag, exit status, skipped/not-started later groups and commands, status truthfulness; evaluations = executions",
     "C05": "(plus variants in which some targets define the command through commands.definitions with explicit paths and the declaration order is reversed) dependency shapes x command-definition patterns x command lists x selection modes (no targets without checkpoint; checkpoint + every changed subset; -t S; -t S --deps; the -t forms also with a checkpoint present) in trace mode; oracle: result document pairs == commands x selected targets exactly once, groups equal analyze --target-groups taken immediately before (or singletons / a valid layering of the closure), executable starts at most once, exactly once iff defined and nothing failed earlier, never when undefined; evaluations = runs",
 }
 
@@ -1073,7 +1127,8 @@ def run(prop, tier):
         import p_c08
         tasks = (c06b_scenarios(tier) if "B" in part else []) + (tasks if "A" in part else []) + \
             ([("c06c", d, {}) for d in p_c08.order_scenarios(tier)] if "B" in part else []) + \
-            ([("c06d", {"n": n_, "linger_ms": lm, "sibling_ms": sm}, {}) for n_ in (2, 3) for (lm, sm) in ((1500, 700), (600, 1200), (2500, 300))] if "B" in part else [])
+            ([("c06d", {"n": n_, "linger_ms": lm, "sibling_ms": sm}, {}) for n_ in (2, 3) for (lm, sm) in ((1500, 700), (600, 1200), (2500, 300))] if "B" in part else []) + \
+            ([("c06e", {"direction": d_}, {}) for d_ in ("revoke", "grant")] if "B" in part else [])
     results = run_tasks(tasks)
     errs = [r["engine_error"] for r in results if r and "engine_error" in r]
     if errs:
@@ -1139,6 +1194,8 @@ def replay(prop, path):
         r = c06c_task(case["c06c"])
     elif "c06d" in case:
         r = c06d_task(case["c06d"])
+    elif "c06e" in case:
+        r = c06e_task(case["c06e"])
     elif "c05" in case:
         r = c05_task(case["c05"])
     else:
